@@ -1149,6 +1149,12 @@ ares_status_t ares_dns_write_buf(const ares_dns_record_t *dnsrec,
     goto done;
   }
 
+  /* Maximum DNS message size is 64k, no transport can carry more */
+  if (ares_buf_len(buf) - orig_len > 65535) {
+    status = ARES_EBADQUERY;
+    goto done;
+  }
+
 done:
   ares_llist_destroy(namelist);
   if (status != ARES_SUCCESS) {
